@@ -8,7 +8,12 @@ decoder (table by id, required check, unknown-field skipping), slices, maps, set
 The model describes the code AS IT IS: the binary protocol writes the *compact* type codes (the `Type` enum
 values regenerated from thrift.go), compact doubles are big-endian, message headers as coded.
 Not modelled: the io.Reader plumbing (the model reads from a byte list = bytes.Reader), union fields, embedded
-(anonymous) struct flattening, unsupported kinds (unsigned integers, which `encodeFuncOf` rejects with a panic).
+(anonymous) struct flattening, unsupported kinds (unsigned integers, which `encodeFuncOf` rejects with a panic),
+types that contain themselves (`type L []L`: the model's types are finite trees), the text of error messages.
+
+Nesting depth: the decoder counts the structs, lists, sets and maps it has entered (`flags.depth()`, `flags.nested()`,
+the `depth` argument of `skip`); the parameter `d` of `skip … decodeStruct` below is that counter and `tooDeep` is the
+test against `maxDepth` (regenerated constant `Gen.c_thrift_maxDepth`).
 -/
 namespace Enc.Model.Thrift
 open Enc
@@ -85,12 +90,13 @@ def wDouble (_ : Proto) (bits : Nat) : Bytes := be bits 8             -- as code
 def wLength : Proto → Nat → Bytes | .compact, n => uvarint n | _, n => be n 4
 def wBytes (p : Proto) (b : Bytes) : Bytes := wLength p b.length ++ b
 
--- go: binaryWriter.WriteField / compactWriter.WriteField  (`id` already holds the delta when applicable)
-def wField (p : Proto) (t : TType) (id : Int) : Bytes :=
+-- go: binaryWriter.WriteField / compactWriter.WriteField  (`id` holds the delta when `delta` (= Field.Delta) is set;
+-- the short form only for `f.Delta && f.ID > 0 && f.ID <= 15`, every other field in the long form)
+def wField (p : Proto) (t : TType) (id : Int) (delta : Bool) : Bytes :=
   match p with
   | .compact =>
     if t == .stop then [0]
-    else if id ≤ 15 then [UInt8.ofNat ((twos id 16 * 16 + t.code) % 256)]
+    else if delta && decide (0 < id) && decide (id ≤ 15) then [UInt8.ofNat ((twos id 16 * 16 + t.code) % 256)]
     else [UInt8.ofNat t.code] ++ varint id
   | _ => [UInt8.ofNat t.code] ++ be (twos id 16) 2
 def wStop (_ : Proto) : Bytes := [0]          -- binary: byte(STOP) then … no: WriteField(Field{Type: STOP})
@@ -233,10 +239,11 @@ def emitFields (p : Proto) : List FieldRec → Int → Bytes
   | [], _ => []
   | f :: rest, last =>
     let delta := f.id - last
-    let idOut := if p.delta && delta ≤ 15 then delta else f.id
+    let useDelta := p.delta && decide (delta ≤ 15)          -- `field.ID = delta; field.Delta = true`
+    let idOut := if useDelta then delta else f.id
     let skipValue := p.coalesce && f.t == .bool
     let tOut := if skipValue && f.isTrue then TType.true_ else f.t
-    wField p tOut idOut ++ (if skipValue then [] else f.body) ++ emitFields p rest f.id
+    wField p tOut idOut useDelta ++ (if skipValue then [] else f.body) ++ emitFields p rest f.id
 
 mutual
 -- go: encodeFuncOf (structural on the type)
@@ -405,9 +412,13 @@ def rMap (p : Proto) (b : Bytes) : R (TType × TType × Nat) :=
 def wrap16 (i : Int) : Int := let m := i % 65536; if m ≥ 32768 then m - 65536 else m
 
 /-! ### skipping -/
+/-- `depth >= maxDepth` (skip) / `f.depth() >= maxDepth` (flags.nested) -/
+def tooDeep (d : Nat) : Bool := decide (Gen.c_thrift_maxDepth ≤ d)
+
 mutual
--- go: skip
-def skip (p : Proto) : Nat → TType → Bytes → R Unit
+-- go: skip(r, t, depth); `d` = depth. The Go test `depth >= maxDepth && (t == LIST || t == SET || t == MAP || t == STRUCT)`
+-- sits in the four container branches here (the other branches do not depend on it)
+def skip (p : Proto) (d : Nat) : Nat → TType → Bytes → R Unit
   | 0, _, _ => .err "fuel"
   | fuel + 1, t, b =>
     match t with
@@ -421,34 +432,37 @@ def skip (p : Proto) : Nat → TType → Bytes → R Unit
       (rLength p b).bind fun (n, r) =>
         if n == 0 then .ok ((), r)
         else if hasAtLeast r n then .ok ((), r.drop n) else .err "unexpectedEof"
-    | .list | .set => (rList p b).bind fun ((et, n), r) => skipN p fuel et n r
-    | .map => (rMap p b).bind fun ((kt, vt, n), r) => skipPairs p fuel kt vt n r
-    | .struct => skipStruct p fuel b 0 0
+    -- skipList / skipSet / skipMap / skipStruct (r, depth+1)
+    | .list | .set => if tooDeep d then .err "maxDepth" else (rList p b).bind fun ((et, n), r) => skipN p (d + 1) fuel et n r
+    | .map => if tooDeep d then .err "maxDepth" else (rMap p b).bind fun ((kt, vt, n), r) => skipPairs p (d + 1) fuel kt vt n r
+    | .struct => if tooDeep d then .err "maxDepth" else skipStruct p (d + 1) fuel b 0 0
     | .stop | .unknown _ => .err "unsupportedType"
-def skipN (p : Proto) : Nat → TType → Nat → Bytes → R Unit
+-- go: readList(r, skip(·, t, depth)) after the header; also skipValues(r, n, depth-1, t)
+def skipN (p : Proto) (d : Nat) : Nat → TType → Nat → Bytes → R Unit
   | 0, _, _, _ => .err "fuel"
   | _, _, 0, b => .ok ((), b)
-  | fuel + 1, t, n + 1, b => (dontExpectEOF (skip p fuel t b)).bind fun (_, r) => skipN p fuel t n r
-def skipPairs (p : Proto) : Nat → TType → TType → Nat → Bytes → R Unit
+  | fuel + 1, t, n + 1, b => (dontExpectEOF (skip p d fuel t b)).bind fun (_, r) => skipN p d fuel t n r
+-- go: readMap(r, …skip k, skip v…) after the header; also skipValues(r, n, depth-1, k, v)
+def skipPairs (p : Proto) (d : Nat) : Nat → TType → TType → Nat → Bytes → R Unit
   | 0, _, _, _, _ => .err "fuel"
   | _, _, _, 0, b => .ok ((), b)
   | fuel + 1, kt, vt, n + 1, b =>
-    (dontExpectEOF (skip p fuel kt b)).bind fun (_, r) =>
-      (dontExpectEOF (skip p fuel vt r)).bind fun (_, r) => skipPairs p fuel kt vt n r
--- go: readStruct(r, skipField)
-def skipStruct (p : Proto) : Nat → Bytes → Int → Nat → R Unit
+    (dontExpectEOF (skip p d fuel kt b)).bind fun (_, r) =>
+      (dontExpectEOF (skip p d fuel vt r)).bind fun (_, r) => skipPairs p d fuel kt vt n r
+-- go: readStruct(r, skipField(·, ·, depth))
+def skipStruct (p : Proto) (d : Nat) : Nat → Bytes → Int → Nat → R Unit
   | 0, _, _, _ => .err "fuel"
   | fuel + 1, b, last, num =>
     match rField p b with
     | .err e => if num > 0 ∧ e == "eof" then .err "unexpectedEof" else .err e
     | .panic e => .panic e
     | .ok (h, r) =>
-      if h.t == .stop then .ok ((), r)
+      if h.t == .stop then (if h.delta then .err "deltaStop" else .ok ((), r))   -- compact: only the byte 0 is the stop field
       else
         let id := if h.delta then h.id + last else h.id
-        let sk : R Unit :=
-          if (h.t == .true_ || h.t == .bool) && p.coalesce then .ok ((), r) else skip p fuel h.t r
-        (dontExpectEOF sk).bind fun (_, r) => skipStruct p fuel r (wrap16 id) (num + 1)
+        let sk : R Unit :=      -- skipField
+          if (h.t == .true_ || h.t == .bool) && p.coalesce then .ok ((), r) else skip p d fuel h.t r
+        (dontExpectEOF sk).bind fun (_, r) => skipStruct p d fuel r (wrap16 id) (num + 1)
 end
 
 def findById (fs : List FieldDesc) (id : Int) : Option FieldDesc := fs.find? (·.id == id)
@@ -466,10 +480,10 @@ def wrapPtr : Ty → Val → Val
   | .named _ t, v => wrapPtr t v
   | _, v => v
 
-/-! ## decoder (`strict` = Decoder.SetStrict) -/
+/-! ## decoder (`strict` = Decoder.SetStrict; `d` = flags.depth()) -/
 mutual
 -- go: decodeFuncOf; `cur` is the current value of the target
-def decode (p : Proto) (strict : Bool) : Nat → Ty → Bytes → Val → R Val
+def decode (p : Proto) (strict : Bool) (d : Nat) : Nat → Ty → Bytes → Val → R Val
   | 0, _, _, _ => .err "fuel"
   | fuel + 1, t, b, cur =>
     match t with
@@ -484,87 +498,102 @@ def decode (p : Proto) (strict : Bool) : Nat → Ty → Bytes → Val → R Val
     | .slice et =>
       (rList p b).bind fun ((lt, n), r) =>
         let lt := if lt == .true_ then TType.bool else lt
-        if typeOf et != lt then (if strict then .err "typeMismatch" else .ok (cur, r))
-        else decodeList p strict fuel et n r []
+        if typeOf et != lt then
+          (if strict then .err "typeMismatch"
+           else (skipN p (d + 1) fuel lt n r).bind fun (_, r) => .ok (cur, r))      -- skipValues(r, l.Size, flags.depth(), l.Type)
+        else if tooDeep d then .err "maxDepth"                                        -- flags.nested()
+        else decodeList p strict (d + 1) fuel et n r []
     | .map kt vt =>
       if isEmptyStruct vt then
         (rList p b).bind fun ((st, n), r) =>
           let st := if st == .true_ then TType.bool else st
           if n == 0 then .ok (.map .nil, r)
-          else if typeOf kt != st then (if strict then .err "typeMismatch" else .ok (.map .nil, r))
-          else decodeSet p strict fuel kt n r .nil
+          else if typeOf kt != st then
+            (if strict then .err "typeMismatch"
+             else (skipN p (d + 1) fuel st n r).bind fun (_, r) => .ok (.map .nil, r))
+          else if tooDeep d then .err "maxDepth"
+          else decodeSet p strict (d + 1) fuel kt n r .nil
       else
         (rMap p b).bind fun ((k, v, n), r) =>
           let k := if k == .true_ then TType.bool else k        -- `if m.Key == TRUE { m.Key = BOOL }`
           let v := if v == .true_ then TType.bool else v        -- `if m.Value == TRUE { m.Value = BOOL }`
           if n == 0 then .ok (.map .nil, r)
-          else if typeOf kt != k then (if strict then .err "typeMismatch" else .ok (.map .nil, r))
-          else if typeOf vt != v then (if strict then .err "typeMismatch" else .ok (.map .nil, r))
-          else decodeMap p strict fuel kt vt n r .nil
+          else if typeOf kt != k then
+            (if strict then .err "typeMismatch"
+             else (skipPairs p (d + 1) fuel k v n r).bind fun (_, r) => .ok (.map .nil, r))   -- skipValues(…, m.Key, m.Value)
+          else if typeOf vt != v then
+            (if strict then .err "typeMismatch"
+             else (skipPairs p (d + 1) fuel k v n r).bind fun (_, r) => .ok (.map .nil, r))
+          else if tooDeep d then .err "maxDepth"
+          else decodeMap p strict (d + 1) fuel kt vt n r .nil
     | .struct fs =>
+      if tooDeep d then .err "maxDepth"                           -- structDecoder.decode starts with flags.nested()
+      else
       match cur with
       | .struct vs =>
         let descs := fieldDescs fs
-        (decodeStruct p strict fuel descs b vs 0 0 []).bind fun ((vs', seen), r) =>
+        (decodeStruct p strict (d + 1) fuel descs b vs 0 0 []).bind fun ((vs', seen), r) =>
           -- required check
-          if descs.any (fun d => d.required && !seen.contains d.id) then .err "missingField"
+          if descs.any (fun fd => fd.required && !seen.contains fd.id) then .err "missingField"
           else .ok (.struct vs', r)
       | _ => .err "modelType"
     | .ptr et =>
       let tgt := match cur with | .ptr v => v | _ => zeroOf et
-      (decode p strict fuel et b tgt).bind fun (v, r) => .ok (.ptr v, r)
-    | .named _ t' => decode p strict fuel t' b cur
+      (decode p strict d fuel et b tgt).bind fun (v, r) => .ok (.ptr v, r)
+    | .named _ t' => decode p strict d fuel t' b cur
     | _ => .panic "unsupportedType"
-def decodeList (p : Proto) (strict : Bool) : Nat → Ty → Nat → Bytes → List Val → R Val
+def decodeList (p : Proto) (strict : Bool) (d : Nat) : Nat → Ty → Nat → Bytes → List Val → R Val
   | 0, _, _, _, _ => .err "fuel"
   | _, _, 0, b, acc => .ok (.list (Vals.ofList acc.reverse), b)
   | fuel + 1, et, n + 1, b, acc =>
-    (dontExpectEOF (decode p strict fuel et b (zeroOf et))).bind fun (v, r) => decodeList p strict fuel et n r (v :: acc)
-def decodeSet (p : Proto) (strict : Bool) : Nat → Ty → Nat → Bytes → Vals → R Val
+    (dontExpectEOF (decode p strict d fuel et b (zeroOf et))).bind fun (v, r) => decodeList p strict d fuel et n r (v :: acc)
+def decodeSet (p : Proto) (strict : Bool) (d : Nat) : Nat → Ty → Nat → Bytes → Vals → R Val
   | 0, _, _, _, _ => .err "fuel"
   | _, _, 0, b, acc => .ok (.map acc, b)
   | fuel + 1, kt, n + 1, b, acc =>
-    (dontExpectEOF (decode p strict fuel kt b (zeroOf kt))).bind fun (k, r) =>
-      decodeSet p strict fuel kt n r (mapPut acc k (.struct .nil))
-def decodeMap (p : Proto) (strict : Bool) : Nat → Ty → Ty → Nat → Bytes → Vals → R Val
+    (dontExpectEOF (decode p strict d fuel kt b (zeroOf kt))).bind fun (k, r) =>
+      decodeSet p strict d fuel kt n r (mapPut acc k (.struct .nil))
+def decodeMap (p : Proto) (strict : Bool) (d : Nat) : Nat → Ty → Ty → Nat → Bytes → Vals → R Val
   | 0, _, _, _, _, _ => .err "fuel"
   | _, _, _, 0, b, acc => .ok (.map acc, b)
   | fuel + 1, kt, vt, n + 1, b, acc =>
-    (dontExpectEOF (decode p strict fuel kt b (zeroOf kt))).bind fun (k, r) =>
-      (dontExpectEOF (decode p strict fuel vt r (zeroOf vt))).bind fun (v, r) =>
-        decodeMap p strict fuel kt vt n r (mapPut acc k v)
--- go: structDecoder.decode via readStruct; returns the new field values and the ids seen
-def decodeStruct (p : Proto) (strict : Bool) : Nat → List FieldDesc → Bytes → Vals → Int → Nat → List Int → R (Vals × List Int)
+    (dontExpectEOF (decode p strict d fuel kt b (zeroOf kt))).bind fun (k, r) =>
+      (dontExpectEOF (decode p strict d fuel vt r (zeroOf vt))).bind fun (v, r) =>
+        decodeMap p strict d fuel kt vt n r (mapPut acc k v)
+-- go: structDecoder.decode via readStruct (`d` = the depth after flags.nested()); returns the new field values and the ids seen
+def decodeStruct (p : Proto) (strict : Bool) (d : Nat) : Nat → List FieldDesc → Bytes → Vals → Int → Nat → List Int → R (Vals × List Int)
   | 0, _, _, _, _, _, _ => .err "fuel"
   | fuel + 1, descs, b, vs, last, num, seen =>
     match rField p b with
     | .err e => if num > 0 ∧ e == "eof" then .err "unexpectedEof" else .err e
     | .panic e => .panic e
     | .ok (h, r) =>
-      if h.t == .stop then .ok ((vs, seen), r)
+      if h.t == .stop then (if h.delta then .err "deltaStop" else .ok ((vs, seen), r))   -- compact: only the byte 0 is the stop field
       else
         let id := wrap16 (if h.delta then h.id + last else h.id)
+        -- skipField(r, f, flags.depth()): the value of a compact bool field is part of the header
+        let sk : R Unit :=
+          if (h.t == .true_ || h.t == .bool) && p.coalesce then .ok ((), r) else skip p d fuel h.t r
         match findById descs id with
         | none =>
-          let sk : R Unit :=
-            if (h.t == .true_ || h.t == .bool) && p.coalesce then .ok ((), r) else skip p fuel h.t r
-          (dontExpectEOF sk).bind fun (_, r) => decodeStruct p strict fuel descs r vs id (num + 1) seen
-        | some d =>
+          (dontExpectEOF sk).bind fun (_, r) => decodeStruct p strict d fuel descs r vs id (num + 1) seen
+        | some fd =>
           let seen := id :: seen
-          let ft := typeOf d.ty
+          let ft := typeOf fd.ty
           if h.t != ft && !(h.t == .true_ && ft == .bool) then
-            if strict then .err "typeMismatch" else decodeStruct p strict fuel descs r vs id (num + 1) seen
+            if strict then .err "typeMismatch"
+            else (dontExpectEOF sk).bind fun (_, r) => decodeStruct p strict d fuel descs r vs id (num + 1) seen
           else if p.coalesce && (h.t == .true_ || h.t == .bool) then
-            decodeStruct p strict fuel descs r (Vals.set vs d.pos (wrapPtr d.ty (.bool (h.t == .true_)))) id (num + 1) seen
+            decodeStruct p strict d fuel descs r (Vals.set vs fd.pos (wrapPtr fd.ty (.bool (h.t == .true_)))) id (num + 1) seen
           else
             let res : R Val :=
-              if d.enum then
-                (match baseOf d.ty with
-                 | .int k => (rI32 p r).bind fun (x, r) => .ok (wrapPtr d.ty (.int (wrapTo k.bits x)), r)   -- reflect SetInt truncates
-                 | _ => decode p strict fuel d.ty r (Vals.get vs d.pos))
-              else decode p strict fuel d.ty r (Vals.get vs d.pos)
+              if fd.enum then
+                (match baseOf fd.ty with
+                 | .int k => (rI32 p r).bind fun (x, r) => .ok (wrapPtr fd.ty (.int (wrapTo k.bits x)), r)   -- reflect SetInt truncates
+                 | _ => decode p strict d fuel fd.ty r (Vals.get vs fd.pos))
+              else decode p strict d fuel fd.ty r (Vals.get vs fd.pos)
             (dontExpectEOF res).bind fun (v, r) =>
-              decodeStruct p strict fuel descs r (Vals.set vs d.pos v) id (num + 1) seen
+              decodeStruct p strict d fuel descs r (Vals.set vs fd.pos v) id (num + 1) seen
 end
 
 /-! ## entry points -/
@@ -586,9 +615,25 @@ def depthFields : Fields → Nat
   | .cons _ _ _ t rest => max (depth t) (depthFields rest)
 end
 
+mutual
+/-- number of nested structs, lists, sets and maps of a type — what the decoder's depth counter (`flags.nested()`) reaches
+while decoding a value of the type (a `[]byte` is a binary, not a list; a `map[K]struct{}` is a set of K) -/
+def nest : Ty → Nat
+  | .slice (.int .u8) => 0
+  | .slice t => 1 + nest t
+  | .map k v => 1 + (if isEmptyStruct v then nest k else max (nest k) (nest v))
+  | .struct fs => 1 + nestFields fs
+  | .ptr t => nest t
+  | .named _ t => nest t
+  | .bool | .int _ | .f32 | .f64 | .str | .bytes | .any | .arr _ _ => 0
+def nestFields : Fields → Nat
+  | .nil => 0
+  | .cons _ _ _ t rest => max (nest t) (nestFields rest)
+end
+
 -- go: thrift.Unmarshal (target: pointer to a zero value of t)
 def unmarshal (p : Proto) (strict : Bool) (t : Ty) (b : Bytes) : Res Val :=
-  match decode p strict (4 * b.length + 64 + depth t) t b (zeroOf t) with
+  match decode p strict 0 (4 * b.length + 64 + depth t) t b (zeroOf t) with
   | .ok (v, rest) => if rest.isEmpty then .ok v else .err "trailing"
   | .err e => .err e
   | .panic e => .panic e
@@ -599,6 +644,34 @@ def wMessage (p : Proto) (mtype : Nat) (name : Bytes) (seq : Int) : Bytes :=
   match p with
   | .binary false => wBytes p name ++ [UInt8.ofNat (mtype % 256)] ++ wI32 p seq
   | .binary true => [0x80, 0, 0, UInt8.ofNat (mtype % 8)] ++ be name.length 4 ++ name ++ wI32 p seq
-  | .compact => [0x82, UInt8.ofNat (mtype % 256)] ++ uvarint (twos seq 64) ++ wBytes p name   -- uint64(int32): sign-extended
+  | .compact => [0x82, UInt8.ofNat (mtype % 256)] ++ uvarint (twos seq 32) ++ wBytes p name   -- uint64(uint32(m.SeqID))
+
+structure Msg where
+  mtype : Nat
+  name : Bytes
+  seq : Int
+
+-- go: binaryReader.ReadMessage / compactReader.ReadMessage
+def rMessage (p : Proto) (b : Bytes) : R Msg :=
+  match p with
+  | .compact =>
+    (rByte b).bind fun (b0, r) =>
+      if b0.toNat != 0x82 then .err "protocolId"
+      else
+        (dontExpectEOF (rByte r)).bind fun (b1, r) =>
+          -- readUvarint("seq id", math.MaxUint32): a negative id is written as its 32-bit two's complement
+          (dontExpectEOF ((readUvarintGo r).bind fun (n, r) => if n > 4294967295 then .err "range" else .ok (n, r))).bind
+            fun (s, r) =>
+              (dontExpectEOF (rBytes p r)).bind fun (nm, r) =>
+                .ok ({ mtype := b1.toNat % 8, name := nm, seq := toSigned s 32 }, r)
+  | _ =>      -- the reader tells strict from non-strict by the first bit of the input, not by the protocol setting
+    (readN b 4).bind fun (w, r) =>
+      if w.headD 0 < 128 then
+        (dontExpectEOF (readN r (beNat w))).bind fun (nm, r) =>
+          (dontExpectEOF (rI8 p r)).bind fun (t, r) =>
+            (dontExpectEOF (rI32 p r)).bind fun (s, r) => .ok ({ mtype := twos t 8 % 8, name := nm, seq := s }, r)
+      else
+        (dontExpectEOF (rBytes p r)).bind fun (nm, r) =>
+          (dontExpectEOF (rI32 p r)).bind fun (s, r) => .ok ({ mtype := (w.getD 3 0).toNat % 8, name := nm, seq := s }, r)
 
 end Enc.Model.Thrift
